@@ -14,7 +14,7 @@ import (
 // kinds: 0 typed Field, 1 bare error, 2 string key, 3 non-string key, 4 nil, 5 other value.
 func vArgs(n int) (args []interface{}, kinds []int) {
 	for i := 0; i < n; i++ {
-		k := vrt.Choice(vName("kind", i), 6)
+		k := vrt.Choice(vName("kind", i), 8)
 		kinds = append(kinds, k)
 		switch k {
 		case 0:
@@ -29,10 +29,20 @@ func vArgs(n int) (args []interface{}, kinds []int) {
 			args = append(args, nil)
 		case 5:
 			args = append(args, vrt.Int64(vName("val", i)))
+		case 6:
+			args = append(args, vSharedErr) // the very same error value wherever it occurs
+		case 7:
+			args = append(args, vListErr{"a", "b"}) // an error whose dynamic type is not comparable
 		}
 	}
 	return
 }
+
+var vSharedErr = errors.New("shared")
+
+type vListErr []string
+
+func (l vListErr) Error() string { return "list" }
 
 // vSweetenRef is the positional reference: what fields and which diagnostics the statement prescribes.
 type vDiag struct {
@@ -159,7 +169,7 @@ func vCheckSweeten(n int) {
 	vrt.Cover("done")
 }
 
-//verif: prop=C14 bounds="argument lists of length 0..3 over 6 element kinds (typed field, bare error, string key, non-string key, nil, other value; int64 payloads symbolic) through Infow/Debugw/Errorw/Logw/With/WithLazy"
+//verif: prop=C14 bounds="argument lists of length 0..3 over 8 element kinds (typed field, bare error, the same error value again, an error of uncomparable dynamic type, string key, non-string key, nil, other value; int64 payloads symbolic) through Infow/Debugw/Errorw/Logw/With/WithLazy"
 func VC14Sweeten3() { vCheckSweeten(vrt.IntRange("n", 0, 3)) }
 
 //verif: prop=C14 tier=thorough bounds="argument lists of length 4 and 5"
